@@ -535,6 +535,14 @@ class Gen:
                 need_copy = (self.copy_only and df["bound"][0] == "from" and i in df["bound"][1]
                              and p[0] == "T")
                 args.append(self.arg_for(["T", "C"] if need_copy else p, d))
+            # now and then the SAME argument at two positions whose parameters agree (only one of them may be named by
+            # a from-params bound)
+            same = [(i, j) for i in range(len(args)) for j in range(i + 1, len(args))
+                    if df["params"][i] == df["params"][j] and df["params"][i][0] == "T"]
+            if same and r.random() < 0.35:
+                i, j = r.choice(same)
+                keep = i if not (self.copy_only and df["bound"][0] == "from" and j in df["bound"][1]) else j
+                args[i] = args[j] = args[keep]
             return ["ext", df, args]
         raise AssertionError(k)
 
